@@ -6,6 +6,8 @@ import (
 	"fmt"
 	"github.com/thushan/olla/internal/adapter/stats"
 	"github.com/thushan/olla/internal/core/domain"
+	"github.com/thushan/olla/internal/core/ports"
+	"github.com/thushan/olla/verifharness/client"
 	"io"
 	"math/rand"
 	"net/http"
@@ -66,6 +68,7 @@ func TestC19(t *testing.T) {
 	modelScope(run)
 	breakerSkipGauges(run)
 	gaugesSurviveCleanup(run)
+	translatedUntranslatableAnswer(run)
 	run.Require("breaker_skip_gauge_checks", 3)
 	run.Require("model_scope_trials", int64(rep.Pick(200, 3000)/map[bool]int{true: 4, false: 1}[rep.Mode() == "race"]))
 	run.Require("worlds_compared", int64(6*reps))
@@ -602,6 +605,51 @@ func modelScope(run *rep.Run) {
 // breakerSkipGauges (olla engine): an endpoint that is healthy in the repository but whose
 // engine circuit is open gets *selected and skipped*; a skip is not an attempt, so when the
 // traffic has stopped its gauge must be zero like everybody else's.
+// translatedUntranslatableAnswer: Anthropic request on the translated route, stream=false; the
+// backend answers 200 with a body Olla cannot translate, the client gets an error status. "A
+// request the client saw fail with an error status is never recorded as a success" - at the
+// endpoint's scope too.
+func translatedUntranslatableAnswer(run *rep.Run) {
+	for _, eng := range []string{"sherpa", "olla"} {
+		b := backend.NewStd("t", []string{"mtra"}, func(*backend.Record) *backend.Resp {
+			return &backend.Resp{Status: 200, Body: []byte("<html><body>model is loading</body></html>"), Headers: [][2]string{{"Content-Type", "text/html"}}}
+		})
+		w, err := world.Start(world.Spec{Engine: eng, Balancer: "priority", Endpoints: []world.Endpoint{{Name: "t", URL: b.URL(), Type: "sglang", Priority: 100}}})
+		if err != nil {
+			run.Inconclusive("world failed to start: " + err.Error())
+			b.Close()
+			continue
+		}
+		url := w.EndpointByName("t").URLString
+		before := w.Stats().GetEndpointStats()[url]
+		hc := world.NewClient(false, 10*time.Second)
+		failed := 0
+		for i := 0; i < 5; i++ {
+			req, _ := http.NewRequest("POST", w.Base+"/olla/anthropic/v1/messages", bytes.NewReader([]byte(`{"model":"mtra","max_tokens":8,"messages":[{"role":"user","content":"hi"}]}`)))
+			req.Header.Set("Content-Type", "application/json")
+			if res := client.Do(hc, req); res.Status >= 400 {
+				failed++
+			}
+		}
+		var after ports.EndpointStats
+		for p := 0; p < 100; p++ { // recorded after the response has been handed over
+			after = w.Stats().GetEndpointStats()[url]
+			if after.TotalRequests-before.TotalRequests >= 5 {
+				break
+			}
+			time.Sleep(10 * time.Millisecond)
+		}
+		run.Eval("translated-untranslatable-200/" + eng)
+		run.Count("untranslatable_answer_cases", 1)
+		if ok := after.SuccessfulRequests - before.SuccessfulRequests; failed == 5 && ok > 0 {
+			run.Violation("C19/endpoint/success-recorded-for-request-the-client-saw-fail/translated-untranslatable-200", fmt.Sprintf("5 translated requests were answered with an error status (the backend's 200 could not be translated); the endpoint's counters show %d successes, %d failures", ok, after.FailedRequests-before.FailedRequests),
+				map[string]any{"engine": eng})
+		}
+		w.Stop()
+		b.Close()
+	}
+}
+
 // gaugesSurviveCleanup: a request is held inside b0; an hour passes (hook VerifAge: the
 // collector's records look 61 minutes older) in which only b1 completes requests, so the
 // collector's clean-up pass runs. b0 still has one attempt in flight and must say so.
